@@ -68,26 +68,30 @@ func (o *signalHandler) addSignalUser(userID uint64, signalID, messageID uint32,
 	}
 
 	e := from.EndPoint()
+
+	// refuse a duplicated user before anything needs to be undone.
+	o.signalsMutex.Lock()
+	for _, user := range o.signals {
+		if user.userID == userID {
+			vhook.Emit("signal", o, "add_dup", "user", userID, "signal", signalID, "ep", vhook.ID(e))
+			o.signalsMutex.Unlock()
+			return fmt.Errorf("user %d already exists", userID)
+		}
+	}
+	o.signalsMutex.Unlock()
+
 	f := func(hdr *net.Header) (bool, bool) {
 		return false, true
 	}
 	q := make(chan<- *net.Message)
 	cl := func(err error) {
-		// unregister user on disconnection
-		o.removeSignalUser(userID, from)
+		// forget the user on disconnection. the handler is being
+		// removed by whoever runs this: do not call RemoveHandler.
+		o.forgetSignalUser(userID, from)
 	}
 	newUser.contextID = e.MakeHandler(f, q, cl)
 
 	o.signalsMutex.Lock()
-
-	for _, user := range o.signals {
-		if user.userID == userID {
-			vhook.Emit("signal", o, "add_dup", "user", userID, "signal", signalID, "ep", vhook.ID(e))
-			o.signalsMutex.Unlock()
-			user.context.EndPoint().RemoveHandler(user.contextID)
-			return fmt.Errorf("user %d already exists", userID)
-		}
-	}
 	o.signals = append(o.signals, newUser)
 	vhook.Emit("signal", o, "add", "user", userID, "signal", signalID, "msg", messageID, "ep", vhook.ID(e), "n", len(o.signals))
 	o.signalsMutex.Unlock()
@@ -95,8 +99,19 @@ func (o *signalHandler) addSignalUser(userID uint64, signalID, messageID uint32,
 
 }
 
-// removeSignalUser unregister the given contex to events.
+// removeSignalUser unregister the given contex to events and removes
+// its disconnection handler.
 func (o *signalHandler) removeSignalUser(userID uint64, from Channel) error {
+	user, err := o.forgetSignalUser(userID, from)
+	if err != nil {
+		return err
+	}
+	user.context.EndPoint().RemoveHandler(user.contextID)
+	return nil
+}
+
+// forgetSignalUser removes the user from the subscribers.
+func (o *signalHandler) forgetSignalUser(userID uint64, from Channel) (signalUser, error) {
 	o.signalsMutex.Lock()
 
 	for i, user := range o.signals {
@@ -106,14 +121,13 @@ func (o *signalHandler) removeSignalUser(userID uint64, from Channel) error {
 				o.signals = o.signals[:len(o.signals)-1]
 				vhook.Emit("signal", o, "remove", "user", userID, "signal", user.signalID, "ep", vhook.ID(from.EndPoint()), "n", len(o.signals))
 				o.signalsMutex.Unlock()
-				user.context.EndPoint().RemoveHandler(user.contextID)
-				return nil
+				return user, nil
 			}
 		}
 	}
 	vhook.Emit("signal", o, "remove_unknown", "user", userID, "ep", vhook.ID(from.EndPoint()))
 	o.signalsMutex.Unlock()
-	return fmt.Errorf("unknown user id %d", userID)
+	return signalUser{}, fmt.Errorf("unknown user id %d", userID)
 }
 
 func (o *signalHandler) RegisterEvent(msg *net.Message, from Channel) error {
